@@ -199,3 +199,16 @@ def function_inputs(target, seed=0, n=400):
         for c in comps:
             for w in ws:
                 yield dict(comparisons=c, weights=w)
+    if mod == 'melody' and fn in ('raw_pitch_accuracy', 'raw_chroma_accuracy', 'overall_accuracy', 'voicing_recall', 'voicing_false_alarm'):
+        cents = [0.0, 4800.0, 4810.0, 4840.0, 4850.0, 4860.0, 5990.0, 6000.0, 6040.0, 3610.0, 7200.0, 2400.0, 5400.0]
+        vo = [0.0, 1.0, 0.5, 0.25]
+        for _ in range(n):
+            k = rng.randint(0, 4)
+            rc = [rng.choice(cents) for _ in range(k)]
+            ec = [rng.choice(cents + [c for c in rc]) for _ in range(k)]
+            rv = [0.0 if c == 0 else rng.choice(vo[1:]) for c in rc] if rng.random() < 0.8 else [rng.choice(vo) for _ in range(k)]
+            ev = [rng.choice(vo) for _ in range(k)]
+            if fn in ('voicing_recall', 'voicing_false_alarm'):
+                yield dict(ref_voicing=rv, est_voicing=ev)
+            else:
+                yield dict(ref_voicing=rv, ref_cent=rc, est_voicing=ev, est_cent=ec, cent_tolerance=rng.choice([50.0, 25.0, 100.0]))
